@@ -64,6 +64,10 @@ func (ls *listenServer) OnCReact(r *core.Msg, c core.CConn) (out []byte, action 
 
 	core.GlobalStats.ReqCmdIncr(r.Type)
 
+	// Pick a backend connection for every fragment before queueing any of them: an error reply makes the
+	// caller recycle r, so no fragment of r may already sit on a backend queue at that point.
+	frags := make([]*core.Frag, 0, len(r.Body))
+	sConns := make([]core.SConn, 0, len(r.Body))
 	for slot, frag := range r.Body {
 		if r.Type == codec.ReqAuth {
 			if len(ls.Password) < 1 {
@@ -99,13 +103,18 @@ func (ls *listenServer) OnCReact(r *core.Msg, c core.CConn) (out []byte, action 
 				return codec.ErrUnKnown.Bytes(), core.None
 			}
 		}
-		frag.Owner = c
 
 		logging.Debugfunc(func() string {
 			return fmt.Sprintf("[%dm|%df][%dc|%ds] key '%s' maps to server '%s' in slot %d", r.Id, frag.Id, c.Fd(), sConn.Fd(), frag.Key, addr, slot)
 		})
 
-		sConn.EnqueueOutFrag(frag)
+		frags = append(frags, frag)
+		sConns = append(sConns, sConn)
+	}
+
+	for i, frag := range frags {
+		frag.Owner = c
+		sConns[i].EnqueueOutFrag(frag)
 	}
 
 	c.EnqueueInMsg(r)
